@@ -96,6 +96,20 @@ def cases(tier, seed):
                     for cfg in (CONFIGS[0], CONFIGS[3], CONFIGS[5]):
                         sp = dict(spec); sp["x0"] = x0; sp["y0"] = [0.0] * len(spec["rows"]); sp["policy"] = "const"; sp["fmt"] = fmt
                         out.append({"spec": sp, "cfg": cfg})
+    # very narrow (but not degenerate) intervals: a variable box / a ranged row of width 5e-9 ... 1e-6 (around the activity tolerance)
+    for hi, H in enumerate(S.SPD[2]):
+        for gi, g in enumerate(S.GVEC[2] + [[2.0, -4.0]]):
+            for w in (5e-9, 1e-8, 2e-8, 1e-6):
+                for which in ("var", "row"):
+                    if which == "var":
+                        spn = {"n": 2, "obj": {"H": H, "g": g}, "rows": [], "var_lb": [0.25, "-inf"], "var_ub": [0.25 + w, "inf"]}
+                    else:
+                        spn = {"n": 2, "obj": {"H": H, "g": g}, "rows": [{"a": [1.0, 1.0], "b": 0.0, "lb": 0.5, "ub": 0.5 + w}], "var_lb": ["-inf", -3.0], "var_ub": ["inf", "inf"]}
+                    spn.update(fmt="coo", policy="fresh", tag=f"qp|narrow|{which}|{w:g}|H{hi}|g{gi}")
+                    for x0 in ([0.25, 1.0], [0.25 + w, -1.0]):
+                        for cfg in (CONFIGS if tier == "thorough" else [CONFIGS[0], CONFIGS[1 + (hi + gi) % 6]]):
+                            sp = dict(spn); sp["x0"] = x0; sp["y0"] = [0.0] * len(spn["rows"])
+                            out.append({"spec": sp, "cfg": cfg})
     sizes = (20, 50) if tier == "quick" else (20, 50, 100, 200)
     for n in sizes:
         for pat in ("free", "boxed", "mixed"):
